@@ -39,6 +39,7 @@ Record oracles := {
   o_mx : bytes -> nat;                            (* ask_dnsmx on the address' domain: 0 ok, 1 none, 2 null MX *)
   o_qq : nat -> qq_outcome;                       (* behaviour of the k-th qmail-queue invocation *)
   o_databytes : N;                                (* control/databytes, 0 = unlimited *)
+  o_liphost : bytes;                              (* control/localiphost (default: control/me) *)
   o_trace : bytes -> bytes -> bool -> bytes -> N -> bytes   (* Received-SPF + Received lines: helo, sender, esmtp, first recipient, relayclient *)
 }.
 
@@ -271,9 +272,18 @@ Fixpoint drain_break (fuel : nat) (r : rstate) (lastline : bytes) : bool * bool 
       end
   end.
 
-Definition envelope (from : bytes) (rc : list (bytes * bool)) : bytes :=
+(** queue_envelope(): a recipient whose domain is an address literal (it was accepted only because the
+    literal is the local IP address) is written as local@localiphost *)
+Fixpoint rewrite_literal (liphost addr : bytes) : bytes :=
+  match addr with
+  | [] => []
+  | 64%N :: 91%N :: _ => 64%N :: liphost            (* "@[" *)
+  | b :: r => if N.eqb b 64 then addr else b :: rewrite_literal liphost r
+  end.
+
+Definition envelope (liphost from : bytes) (rc : list (bytes * bool)) : bytes :=
   [70%N] ++ from ++ [0%N]
-  ++ concat (map (fun x => [84%N] ++ fst x ++ [0%N]) (filter (fun x => snd x) rc))
+  ++ concat (map (fun x => [84%N] ++ rewrite_literal liphost (fst x) ++ [0%N]) (filter (fun x => snd x) rc))
   ++ [0%N].
 
 (** ---------- handlers ---------- *)
@@ -387,7 +397,7 @@ Definition h_data (fuel : nat) (o : oracles) (s : sstate) : list event * hres * 
         | D_stuck => ([Note (NData k); Reply 354; EStuck], HEXIT, s')
         | D_eod msg _ _ =>
             (* queue_envelope (freedata) + queue_result *)
-            let env := envelope (mailfrom s') (rcpts s') in
+            let env := envelope (o_liphost o) (mailfrom s') (rcpts s') in
             let sf := freedata s' in
             match o_qq o k with
             | QQ_ok => ([Note (NData k); Reply 354; Handoff env msg; Note NBoundary; Reply 250], H0, sf)
